@@ -4,7 +4,7 @@
     [D], [deq], [H] are the digest type, its equality test and SHA-256; "content is intact" means [H content = d].
     [Inv D H d size fo]: if the file exists and has the size the blob is stored under (size > 0), its content hashes to d. *)
 From Coq Require Import List NArith Bool Arith Lia.
-From V Require Import Common.Bytes Blob.Model Blob.Proofs Blob.ProofsHist Blob.ProofsLink Blob.ProofsConc Blob.Corr Blob.Witness.
+From V Require Import Common.Bytes Blob.Model Blob.Proofs Blob.ProofsHist Blob.ProofsLink Blob.ProofsConc Blob.ProofsMore Blob.Corr Blob.Witness.
 Import ListNotations.
 
 (** ** single writer: every source behaviour, every crash point (also inside one write), every prior file *)
@@ -32,6 +32,31 @@ Example C08_size_implies_content_ex :
   fst (w_exec Dg eqb_str Hid [AStep; AStep; APartial 1] (new_writer Dg [1;2;3]%N 3 [([1]%N, RMore); ([2;3]%N, RMore)]) (Some [9]%N))
   = Some [1;2]%N.
 Proof. split; [intros f Hf Hl _; inversion Hf; subst; discriminate | vm_compute; reflexivity]. Qed.
+
+(** the model's copyNamedFile always returns when the process does not die (the fuel of [w_run] suffices) *)
+Theorem C08_copy_terminates :
+  forall (D : Type) (deq : D -> D -> bool) (H : list N -> D) fo d size src,
+    exists r, snd (copy_named_file D deq H fo d size src None) = WDone r.
+Proof. exact copy_terminates. Qed.
+Print Assumptions C08_copy_terminates.
+
+(** a crash inside one write (after j of its bytes) leaves the file that a crash *between* writes leaves when the
+    source delivers those j bytes as a read of their own: the crash points exercised on the implementation (the child
+    process is killed when a Read begins) cover the partial-write crash points of C08_size_implies_content *)
+Theorem C08_partial_crash_is_boundary_crash :
+  forall (D : Type) (deq : D -> D -> bool) (H : list N -> D) (w : writer D) f p st rest j,
+    w_stage w = WCopy -> w_src w = (p, st) :: rest -> cw_check D deq H w p = None ->
+    0 < j -> j < length p -> w_n w <= length f ->
+    let w' := mkW (w_d w) (w_size w) (w_n w) (w_acc w) ((firstn j p, RMore) :: (skipn j p, st) :: rest) WCopy in
+    fst (w_step D deq H (APartial j) w (Some f)) = fst (w_step D deq H AStep w' (Some f)).
+Proof. exact partial_crash_is_boundary_crash. Qed.
+Print Assumptions C08_partial_crash_is_boundary_crash.
+
+Example C08_partial_crash_ex :
+  let w := mkW [1;2;3;4]%N 4 1 [1]%N [([2;3;4]%N, RMore)] WCopy in
+  cw_check Dg eqb_str Hid w [2;3;4]%N = None /\
+  fst (w_step Dg eqb_str Hid (APartial 2) w (Some [1]%N)) = Some [1;2;3]%N.
+Proof. vm_compute. split; reflexivity. Qed.
 
 (** ** concurrent honest writers: any number, any interleaving, any crash pattern *)
 Theorem C08_honest_concurrent :
